@@ -94,7 +94,7 @@ def run(res, tier, seed, shard, nshards):
                 volume_case(res, W, rng, total, msg)
         # the client is busy with traffic of its own (half-way through sending a fragmented message, right after a ping or a data frame
         # of its own): pings are answered all the same, and the client's own frames stay intact around the pongs
-        for i in range(40 if tier == "quick" else 1500):
+        for i in range(160 if tier == "quick" else 3000):
             if i % nshards == shard:
                 busy_client_case(res, W, rng)
         # pongs written through a dispatcher object (as on every WebSocketApp connection) over a transport that takes a few bytes
@@ -166,16 +166,39 @@ def volume_case(res, W, rng, total, msg):
 
 
 def busy_client_case(res, W, rng):
-    w, conn, peer = H.connected_ws(timeout=5)
+    import socket as _socket
+    # the mask keys come from the default source or from one given by the application (bytes or, as in the library's own tests, str)
+    ks = rng.choice(["default", "default", "bytes", "str"])
+    keyfn = {"default": None, "bytes": lambda n: bytes(rng.randrange(256) for _ in range(n)),
+             "str": lambda n: "".join(chr(rng.randrange(0x21, 0x7F)) for _ in range(n))}[ks]
+    w, conn, peer = H.connected_ws(timeout=5, ws_kwargs={"get_mask_key": keyfn} if keyfn and rng.random() < 0.5 else None)
+    if keyfn and w.get_mask_key is None:
+        w.set_mask_key(keyfn)
+    res.count("busy_client_keysrc:" + ks)
     mode = rng.choice(MODES)
     before = len(peer.client_stream)
     expected = []  # frames the client is expected to write, in order
-    case = {"gen": "busy-client", "mode": mode, "steps": []}
+    case = {"gen": "busy-client", "mode": mode, "steps": [], "keysrc": ks}
     in_msg = False
     try:
         for step in range(rng.randrange(3, 9)):
-            act = rng.choice(["frag-start", "frag-cont", "frag-end", "own-ping", "own-text", "server-ping", "server-ping", "server-text", "server-pong", "own-pong"])
-            if act == "frag-start" and not in_msg:
+            act = rng.choice(["frag-start", "frag-cont", "frag-end", "own-ping", "own-text", "server-ping", "server-ping", "server-text", "server-pong", "own-pong",
+                              "own-send-fails"])
+            if act == "own-send-fails" and not in_msg:
+                # a send of the client's own that the transport refuses before taking a single byte (a full buffer for longer than the
+                # timeout): the stream is intact, later pings are answered as ever
+                conn.send_error = _socket.timeout("timed out")
+                conn.write_plan = iter([0])
+                try:
+                    rng.choice([lambda: w.send("never written"), lambda: w.ping(b"np"), lambda: w.send_binary(b"n" * 300)])()
+                except Exception:  # noqa
+                    pass
+                conn.send_error = None
+                conn.write_plan = None
+                res.count("busy_client_failed_own_sends")
+            elif act == "own-send-fails":
+                continue
+            elif act == "frag-start" and not in_msg:
                 b = rng.randbytes(rng.choice([0, 3, 200]))
                 w.send_frame(W.ABNF.create_frame(b, W.ABNF.OPCODE_BINARY, 0)); expected.append((R.BINARY, b, 0)); in_msg = True
             elif act == "frag-cont" and in_msg:
